@@ -196,6 +196,32 @@ func runC10(c *core.Case) {
 		return
 	}
 
+	// numerals spelled in a non-canonical way the integer parser accepts ("+5", "007", zero padding): the converted ID
+	// must still name the same voxel (its spelling is not prescribed)
+	if len(sq) > 0 && len(sq) <= 10 && r.P(0.15) {
+		k := r.Intn(len(sq))
+		rs, re := respell(r, sp[k]), respell(r, ex[k])
+		g1, e1 := shape.ConvertSpatialIdsToExtendedSpatialIds([]string{rs})
+		g2, e2 := shape.ConvertExtendedSpatialIdsToSpatialIds([]string{re})
+		c.Calls(2)
+		c.Tag("respelled-numerals")
+		if e1 != nil || len(g1) != 1 {
+			c.Fail("notation-respelled", nil, "ConvertSpatialIdsToExtendedSpatialIds([%q]) = %v, %v", rs, g1, e1)
+			return
+		}
+		if a, ok := looseExt(g1[0]); !ok || a != sq[k] {
+			c.Fail("notation-respelled", nil, "ConvertSpatialIdsToExtendedSpatialIds([%q]) = %q, which is not the voxel %s", rs, g1[0], ex[k])
+			return
+		}
+		if e2 != nil || len(g2) != 1 {
+			c.Fail("notation-respelled", nil, "ConvertExtendedSpatialIdsToSpatialIds([%q]) = %v, %v", re, g2, e2)
+			return
+		}
+		if a, ok := looseSpatial(g2[0]); !ok || a != sq[k] {
+			c.Fail("notation-respelled", nil, "ConvertExtendedSpatialIdsToSpatialIds([%q]) = %q, which is not the voxel %s", re, g2[0], sp[k])
+			return
+		}
+	}
 	// object parse / print
 	o, err := object.NewExtendedSpatialID(es)
 	c.Call()
